@@ -853,11 +853,18 @@ func (c *cursor[K, V]) Forward() iterator.Iterator[KVPair[K, V]] {
 
 type forwardIterator[K any, V any] struct {
 	c cursor[K, V]
+	// If non-nil, iteration ends at the first key for which past returns true. This is checked
+	// before reading that key's value, so that a bounded range never touches the values of entries
+	// outside of it.
+	past func(K) bool
 }
 
 func (iter *forwardIterator[K, V]) Next() (KVPair[K, V], bool) {
 	if iter.c.lost() {
 		iter.c.SeekFirstGreaterOrEqual(iter.c.Key())
+	}
+	if iter.c.curr != nil && iter.past != nil && iter.past(iter.c.Key()) {
+		iter.c.curr = nil
 	}
 	if iter.c.curr == nil {
 		var zero KVPair[K, V]
@@ -876,11 +883,16 @@ func (c *cursor[K, V]) Backward() iterator.Iterator[KVPair[K, V]] {
 
 type backwardIterator[K any, V any] struct {
 	c cursor[K, V]
+	// Same as forwardIterator.past.
+	past func(K) bool
 }
 
 func (iter *backwardIterator[K, V]) Next() (KVPair[K, V], bool) {
 	if iter.c.lost() {
 		iter.c.SeekLastLessOrEqual(iter.c.Key())
+	}
+	if iter.c.curr != nil && iter.past != nil && iter.past(iter.c.Key()) {
+		iter.c.curr = nil
 	}
 	if iter.c.curr == nil {
 		var zero KVPair[K, V]
@@ -907,13 +919,13 @@ func (t *btree[K, V]) Range(lower Bound[K], upper Bound[K]) iterator.Iterator[KV
 	}
 	switch upper.type_ {
 	case boundInclude:
-		return iterator.While(c.Forward(), func(pair KVPair[K, V]) bool {
-			return t.compare(pair.Key, upper.key) <= 0
-		})
+		return &forwardIterator[K, V]{c: c, past: func(k K) bool {
+			return t.compare(k, upper.key) > 0
+		}}
 	case boundExclude:
-		return iterator.While(c.Forward(), func(pair KVPair[K, V]) bool {
-			return t.compare(pair.Key, upper.key) < 0
-		})
+		return &forwardIterator[K, V]{c: c, past: func(k K) bool {
+			return t.compare(k, upper.key) >= 0
+		}}
 	case boundUnbounded:
 		return c.Forward()
 	default:
@@ -935,13 +947,13 @@ func (t *btree[K, V]) RangeReverse(lower Bound[K], upper Bound[K]) iterator.Iter
 	}
 	switch lower.type_ {
 	case boundInclude:
-		return iterator.While(c.Backward(), func(pair KVPair[K, V]) bool {
-			return t.compare(pair.Key, lower.key) >= 0
-		})
+		return &backwardIterator[K, V]{c: c, past: func(k K) bool {
+			return t.compare(k, lower.key) < 0
+		}}
 	case boundExclude:
-		return iterator.While(c.Backward(), func(pair KVPair[K, V]) bool {
-			return t.compare(pair.Key, lower.key) > 0
-		})
+		return &backwardIterator[K, V]{c: c, past: func(k K) bool {
+			return t.compare(k, lower.key) <= 0
+		}}
 	case boundUnbounded:
 		return c.Backward()
 	default:
